@@ -480,11 +480,16 @@ func designMedia() {
 			})
 			Result(String)
 			Error("denied")
+			Error("busy", func() {
+				Temporary()
+				Timeout()
+			})
 			HTTP(func() {
 				GET("/secret/{what}")
 				Header("k:X-Key")
 				Response(StatusOK)
 				Response("denied", StatusForbidden)
+				Response("busy", StatusServiceUnavailable)
 			})
 		})
 		Files("/static/one.json", "public/one.json")
